@@ -520,7 +520,7 @@ func c19Pairing(c *core.Ctx) {
 // possibly-nil holder load, and the direction test uses the same quantity
 // that armed the timers.
 func timerNilSafe(c *core.Ctx, R string) {
-	c.Rule(R, "no Timer method that dereferences its receiver (Refresh, Stop, Unref) is invoked on holder.Load() unless a non-nil test dominates it or the site is licensed by a test of the same discriminator (s.protocol) under which onOpen armed that holder — a field only the constructor assigns; ClearTimeout/ClearInterval are nil-safe")
+	c.Rule(R, "no Timer method that dereferences its receiver (Refresh, Stop, Unref) is invoked on holder.Load() unless a non-nil test of that very value dominates it (a test of s.protocol is no licence: the holders are stored after the session became open to packets); ClearTimeout/ClearInterval are nil-safe")
 	armed := map[string]string{} // holder -> "3" or "4": revision under which onOpen arms it
 	if oo := c.Fn(R, "engine.(*socket).onOpen"); oo != nil {
 		g := oo.Graph()
@@ -577,7 +577,8 @@ func timerNilSafe(c *core.Ctx, R string) {
 			default:
 				continue
 			}
-			ld, ok := ast.Unparen(cl.Recv).(*ast.CallExpr)
+			// the receiver is a holder load, directly or through a local (`if t := h.Load(); t != nil { t.Refresh() }`)
+			ld, ok := ast.Unparen(u.Resolve(cl.Recv)).(*ast.CallExpr)
 			if !ok {
 				continue
 			}
@@ -589,29 +590,25 @@ func timerNilSafe(c *core.Ctx, R string) {
 			n++
 			c.Touch(u)
 			g := u.Graph()
-			// licence 1: explicit nil test of the same holder load (through a local)
-			// licence 2: test of s.protocol matching the arming table
-			rev := armed[holder]
-			licensed := rev != "" && g.GuardedBy(cl.Loc, func(x *core.Unit, br core.Branch) int {
-				cmp, ok := x.BranchCmp(br)
-				if !ok || fieldOf(x.Info(), cmp.X) != "socket.protocol" || cmp.Val == nil || cmp.Val.String() != "3" {
-					return 0
+			// the only licence is a non-nil test of that very value. A test of the session's revision does NOT license
+			// the call: onOpen stores the timers only after the state became "open", and the transport's reader has been
+			// running since its constructor — a heartbeat packet sent right after the 101 response finds the holder nil
+			recv := ast.Unparen(cl.Recv)
+			nonNil := nilGuard(true, func(x *core.Unit, e ast.Expr) bool {
+				e = ast.Unparen(e)
+				if id, isId := recv.(*ast.Ident); isId {
+					return sameObj(x.Info(), e, id)
 				}
-				// fact: protocol == 3 (true edge of ==, false edge of !=)
-				p := 0
-				switch cmp.Op {
-				case token.EQL:
-					p = 1
-				case token.NEQ:
-					p = -1
+				if ce, isC := e.(*ast.CallExpr); isC {
+					if s2, isS := ce.Fun.(*ast.SelectorExpr); isS && s2.Sel.Name == "Load" && timerHolder(x.Info(), ce) == holder {
+						return true
+					}
 				}
-				if rev == "4" {
-					p = -p
-				}
-				return p
+				return false
 			})
+			licensed := g.GuardedBy(cl.Loc, nonNil)
 			c.Check(R, keyf("%s/%s.Load().%s", u.Key, holder, cl.Name), cl.Pos(), licensed,
-				keyf("holder armed by onOpen only for revision %q; call licensed by a test of s.protocol: %v (a test of the transport's revision does not license it: after an upgrade with a different EIO the holder is nil)", rev, licensed))
+				keyf("a dereferencing Timer method on a holder load must be dominated by a non-nil test of that value: %v (onOpen arms revision-%s timers after the session is already open to packets)", licensed, armed[holder]))
 		}
 	}
 	c.Need(R, "Timer method calls on holder loads", n, 2)
